@@ -67,7 +67,7 @@ def chain(ctx, pts, family, int_dtype=None):
             ctx.fail('predicate', 'consecutive-edges-turn-strictly', site, case, dict(hull=H))
         elif any(ccw(Q[a], Q[b], Q[k]) < 0 for a, b in zip(H, H[1:]) for k in range(n)):
             ctx.fail('predicate', 'every-point-on-the-right-side-of-the-chain', site, case, dict(hull=H))
-        elif H != brute_lower(Q):
+        elif n <= 200 and H != brute_lower(Q):       # (cubic) - beyond 200 points the three clauses above decide it: such a chain is unique (Props/C18U hullLower_iff)
             ctx.fail('predicate', 'equals-brute-force-hull-chain', site, case, dict(hull=H, brute=brute_lower(Q)))
     try:
         lo = [int(v) for v in np.asarray(ch.graham_scan_lower(pts)).tolist()]
@@ -165,6 +165,12 @@ def run(ctx):
             M_ = float(2 ** rng.choice([27, 30, 34, 40]) * rng.choice([1, -1]))
             xs = np.cumsum([rng.choice([1, 1, 2]) for _ in range(rng.randrange(3, 12))]).astype(float)
             chain(ctx, np.column_stack([xs, xs * M_ + np.array([rng.choice([-1.0, 0.0, 0.0, 1.0, 2.0]) for _ in xs])]), 'needle-curve')
+    for _ in range(2 if quick else 24):
+        # LONG curves (beyond 1024 / 4096 points): chunked or strided scans show at a chunk boundary
+        n = rng.choice([rng.randrange(1100, 1600), rng.randrange(4097, 4400)])
+        xs = np.cumsum([rng.choice([1, 1, 2]) for _ in range(n)]).astype(float)
+        ys = np.round(4096.0 * np.exp(-0.002 * np.arange(n))) / 4.0 + np.array([rng.randrange(0, 64) / 4.0 for _ in range(n)])
+        chain(ctx, np.column_stack([xs, ys]), 'long-noisy-decay', False)
     for _ in range(400 if quick else 8000):
         k = rng.randrange(3, 10)
         lim = rng.choice([2, 3, 5, 50])
